@@ -35,6 +35,7 @@ import (
 	"os"
 	"regexp"
 	"strings"
+	"syscall"
 	"testing"
 	"time"
 
@@ -528,8 +529,8 @@ func vrC07FeeOptionFromCheckState() string {
 	b.begin(2)
 	fa, fb := a.feeOpt(), b.feeOpt()
 	da, db := vrC07Deliver(a.deliver(vrC07SendTx())), vrC07Deliver(b.deliver(vrC07SendTx()))
-	fmt.Printf("vrC07 D-07a: fee option after BeginBlock(2): A {%s}  B {%s}\n", fa, fb)
-	fmt.Printf("vrC07 D-07a: DeliverTx(send, fee price 10^9) in block 2: A {%s}  B {%s}\n", da, db)
+	vrC07Note("vrC07 D-07a: fee option after BeginBlock(2): A {%s}  B {%s}", fa, fb)
+	vrC07Note("vrC07 D-07a: DeliverTx(send, fee price 10^9) in block 2: A {%s}  B {%s}", da, db)
 	if fa != fb || da != db {
 		return "C07 violated: a CheckTx (PROPOSAL_FINALIZE signed by a non-validator, no funds) on replica B between Commit(1) and " +
 			"BeginBlock(2) changed consensus results: fee option installed by BeginBlock(2): A {" + fa + "} vs B {" + fb + "}; " +
@@ -569,8 +570,8 @@ func vrC07InternalTxFromCheckState() string {
 	a.end(2)
 	b.end(2)
 	ha, hb := a.commit(), b.commit()
-	fmt.Printf("vrC07 D-07b: internal tx queue after BeginBlock(2): A %s  B %s\n", qa, qb)
-	fmt.Printf("vrC07 D-07b: app hash after Commit(2): A %s  B %s\n", ha, hb)
+	vrC07Note("vrC07 D-07b: internal tx queue after BeginBlock(2): A %s  B %s", qa, qb)
+	vrC07Note("vrC07 D-07b: app hash after Commit(2): A %s  B %s", ha, hb)
 	if qa != qb || ha != hb {
 		return "C07 violated: a CheckTx (PROPOSAL_FINALIZE signed by a non-validator, no funds) on replica B between Commit(1) and " +
 			"BeginBlock(2) changed consensus results: internal transaction queue built by BeginBlock(2): A " + qa + " vs B " + qb +
@@ -606,13 +607,13 @@ func vrC07CheckTxSwitchesOption(update, field, culprit string, observe func(r *v
 		return msg
 	}
 	after, other := observe(b), observe(a)
-	fmt.Printf("vrC07 D-07c: %s on B: before CheckTx {%s}  after CheckTx {%s}; on A (no CheckTx) {%s}\n", field, before, after, other)
+	vrC07Note("vrC07 D-07c: %s on B: before CheckTx {%s}  after CheckTx {%s}; on A (no CheckTx) {%s}", field, before, after, other)
 
 	consequence := ""
 	differs := before != after
 	if withSend {
 		da, db := vrC07Deliver(a.deliver(vrC07SendTx())), vrC07Deliver(b.deliver(vrC07SendTx()))
-		fmt.Printf("vrC07 D-07c: DeliverTx(send, fee price 10^9) in block 2: A {%s}  B {%s}\n", da, db)
+		vrC07Note("vrC07 D-07c: DeliverTx(send, fee price 10^9) in block 2: A {%s}  B {%s}", da, db)
 		consequence = "; DeliverTx of the same SEND paying the committed minimal fee: replica without the CheckTx {" + da + "} vs replica with it {" + db + "}"
 		differs = differs || da != db
 	}
@@ -657,48 +658,74 @@ func vrC07CheckTxSwitchesProposalOptions() string {
 
 // ---- tests and the TestMain workaround
 
-func TestVerifReplayC07FeeOptionFromCheckState(t *testing.T) {
-	if msg := vrC07FeeOptionFromCheckState(); msg != "" {
-		t.Errorf("%s", msg)
-	}
+var vrC07Notes []string
+
+func vrC07Note(format string, args ...interface{}) {
+	vrC07Notes = append(vrC07Notes, fmt.Sprintf(format, args...))
 }
 
-func TestVerifReplayC07InternalTxFromCheckState(t *testing.T) {
-	if msg := vrC07InternalTxFromCheckState(); msg != "" {
-		t.Errorf("%s", msg)
+// vrC07Run runs a replay with file descriptor 1 redirected to a temporary file: the node's loggers (many of them
+// package-level, bound to os.Stdout) are noisy, and the harness keeps only the head of the output. The verdict and the
+// observed values are printed first, the captured node log after them.
+func vrC07Run(run func() string) (msg string, report string) {
+	vrC07Notes = nil
+	captured := ""
+	f, err := os.CreateTemp("", "vrC07-log-")
+	saved := -1
+	if err == nil {
+		saved, err = syscall.Dup(1)
 	}
+	if err == nil {
+		err = syscall.Dup3(int(f.Fd()), 1, 0)
+	}
+	if err != nil {
+		msg = run() // no capture possible: run with the log on stdout
+	} else {
+		msg = run()
+		_ = syscall.Dup3(saved, 1, 0)
+		_ = syscall.Close(saved)
+		if data, rerr := os.ReadFile(f.Name()); rerr == nil {
+			captured = string(data)
+		}
+	}
+	if f != nil {
+		f.Close()
+		os.Remove(f.Name())
+	}
+	report = strings.Join(vrC07Notes, "\n")
+	if captured != "" {
+		report += "\n---- node log during the replay ----\n" + captured
+	}
+	return msg, report
 }
 
-func TestVerifReplayC07CheckTxSwitchesFeeOption(t *testing.T) {
-	if msg := vrC07CheckTxSwitchesFeeOption(); msg != "" {
-		t.Errorf("%s", msg)
-	}
+var vrC07Replays = []struct {
+	name string
+	run  func() string
+}{
+	{"TestVerifReplayC07FeeOptionFromCheckState", vrC07FeeOptionFromCheckState},
+	{"TestVerifReplayC07InternalTxFromCheckState", vrC07InternalTxFromCheckState},
+	{"TestVerifReplayC07CheckTxSwitchesFeeOption", vrC07CheckTxSwitchesFeeOption},
+	{"TestVerifReplayC07CheckTxSwitchesOnsOptions", vrC07CheckTxSwitchesOnsOptions},
+	{"TestVerifReplayC07CheckTxSwitchesProposalOptions", vrC07CheckTxSwitchesProposalOptions},
 }
 
-func TestVerifReplayC07CheckTxSwitchesOnsOptions(t *testing.T) {
-	if msg := vrC07CheckTxSwitchesOnsOptions(); msg != "" {
+func vrC07Test(t *testing.T, i int) {
+	msg, report := vrC07Run(vrC07Replays[i].run)
+	if msg != "" {
 		t.Errorf("%s", msg)
 	}
+	t.Log(report)
 }
 
-func TestVerifReplayC07CheckTxSwitchesProposalOptions(t *testing.T) {
-	if msg := vrC07CheckTxSwitchesProposalOptions(); msg != "" {
-		t.Errorf("%s", msg)
-	}
-}
+func TestVerifReplayC07FeeOptionFromCheckState(t *testing.T)        { vrC07Test(t, 0) }
+func TestVerifReplayC07InternalTxFromCheckState(t *testing.T)       { vrC07Test(t, 1) }
+func TestVerifReplayC07CheckTxSwitchesFeeOption(t *testing.T)       { vrC07Test(t, 2) }
+func TestVerifReplayC07CheckTxSwitchesOnsOptions(t *testing.T)      { vrC07Test(t, 3) }
+func TestVerifReplayC07CheckTxSwitchesProposalOptions(t *testing.T) { vrC07Test(t, 4) }
 
 // see the NOTE at the top: TestMain of this package never runs the Test functions
 func init() {
-	replays := []struct {
-		name string
-		run  func() string
-	}{
-		{"TestVerifReplayC07FeeOptionFromCheckState", vrC07FeeOptionFromCheckState},
-		{"TestVerifReplayC07InternalTxFromCheckState", vrC07InternalTxFromCheckState},
-		{"TestVerifReplayC07CheckTxSwitchesFeeOption", vrC07CheckTxSwitchesFeeOption},
-		{"TestVerifReplayC07CheckTxSwitchesOnsOptions", vrC07CheckTxSwitchesOnsOptions},
-		{"TestVerifReplayC07CheckTxSwitchesProposalOptions", vrC07CheckTxSwitchesProposalOptions},
-	}
 	for i, a := range os.Args {
 		pat := ""
 		if strings.HasPrefix(a, "-test.run=") {
@@ -714,17 +741,19 @@ func init() {
 			return
 		}
 		failed := false
-		for _, rp := range replays {
+		for _, rp := range vrC07Replays {
 			if !re.MatchString(rp.name) {
 				continue
 			}
 			fmt.Printf("=== RUN   %s\n", rp.name)
-			if msg := rp.run(); msg != "" {
+			msg, report := vrC07Run(rp.run)
+			if msg != "" {
 				fmt.Printf("--- FAIL: %s\n    %s\n", rp.name, msg)
 				failed = true
 			} else {
 				fmt.Printf("--- PASS: %s\n", rp.name)
 			}
+			fmt.Println(report)
 		}
 		if failed {
 			fmt.Println("FAIL")
